@@ -1,4 +1,5 @@
 import Vore.Props.C01
+import Vore.Lemmas.TotalR
 /-!
 # C10 — A search without unguarded recursion always terminates
 
@@ -9,8 +10,17 @@ the one the property names: the specification is total because an optional itera
 nothing is rejected and consumption is bounded by the text (`Lemmas/SpecTotal.lean`), and the VM
 follows the specification step for step (`Lemmas/Sim.lean`), so it stops too.
 
-PARTIAL: programs with (guarded) recursive subroutines are outside this theorem; the correspondence
-run enumerates nullable nests exhaustively and checks the real engine against a step budget.
+Stage 2 (`C10_terminates_guarded`, `C10_spec_total_guarded`): programs with inline subroutines, global
+patterns and **recursion**.  "Without unguarded recursion" is formalised as `GuardedP`/`okCalls`
+(`Lemmas/TotalR.lean`): every call either stands behind something that must consume at least one byte
+since the enclosing subroutine body was entered (a literal, a non-negated consuming class, `not in`, a
+sequence/alternation of such), or goes to a subroutine of strictly smaller rank (so the unguarded part of
+the call graph is acyclic); predicates must evaluate.  The measure is (text left at body entry, rank),
+lexicographic; call depth `(|text| + 1) * R` is never exhausted.  `guardedB` is a decidable sufficient
+form for predicate-free programs.  PARTIAL: the criterion is conservative (a call guarded only by a
+range, a negated class or another call's consumption is not recognised); named loops are outside
+`resolveBody`; both are left to the correspondence run, which enumerates nullable nests exhaustively and
+checks the real engine against a step budget.
 -/
 namespace Vore
 open Vore.Spec
@@ -33,6 +43,50 @@ theorem C10_fuel_monotone (pf : Nat) (prog : List Instr) (text : Bytes) (n k : N
     (h : run pf prog text n s = some o) : run pf prog text (n + k) s = some o :=
   run_mono pf prog text n k s o h
 
+/-- the specification answers for every program without unguarded recursion: call depth
+`(|text| + 1) * R` suffices, whatever the input -/
+theorem C10_spec_total_guarded (r : RExpr) (pf : Nat) (rk : Nat → Nat) (R : Nat)
+    (hG : GuardedP pf (procsOf r) rk R) (hpe : predsOK pf r) (hok : okCalls (procsOf r) rk false R r = true)
+    (text : Bytes) (cf : Nat) (hcf : (text.length + 1) * R ≤ cf) : findAllR text pf cf r ≠ none :=
+  findAllR_total text pf cf r rk R hG hpe hok hcf
+
+/-- a search without unguarded recursion terminates: for every input some fuel makes the VM, running
+the generated code of the resolved body, return — and what it returns is the specification's answer
+under every amount clause -/
+theorem C10_terminates_guarded (G : GEnv) (e : Expr) (r : RExpr) (hr : resolveBody G e = some r)
+    (hu : UniqueSubs r) (hwf : WfR r) (hne : lenR r ≠ 0)
+    (pf : Nat) (rk : Nat → Nat) (R : Nat)
+    (hG : GuardedP pf (procsOf r) rk R) (hpe : predsOK pf r) (hok : okCalls (procsOf r) rk false R r = true)
+    (text : Bytes) (nid : Nat) :
+    ∃ A vf0, ∀ vf, vf0 ≤ vf → ∀ amt, findMatches pf vf (genBody r nid).1 amt text = some (.ok (window amt A)) := by
+  cases hA : findAllR text pf ((text.length + 1) * R) r with
+  | none => exact absurd hA (findAllR_total text pf _ r rk R hG hpe hok (Nat.le_refl _))
+  | some A =>
+    obtain ⟨vf0, hv⟩ := C01_refines_calls G e r hr hu hwf hne text pf _ nid A hA
+    exact ⟨A, vf0, hv⟩
+
+/-- decidable form: predicate-free programs with a rank table -/
+theorem C10_terminates_guardedB (G : GEnv) (e : Expr) (r : RExpr) (hr : resolveBody G e = some r)
+    (hu : UniqueSubs r) (hwf : WfR r) (hne : lenR r ≠ 0) (ranks : List (Nat × Nat)) (R : Nat)
+    (hg : guardedB r ranks R = true) (pf : Nat) (text : Bytes) (nid : Nat) :
+    ∃ A vf0, ∀ vf, vf0 ≤ vf → ∀ amt, findMatches pf vf (genBody r nid).1 amt text = some (.ok (window amt A)) := by
+  obtain ⟨hG, hpe, hok⟩ := guardedB_sound pf r ranks R hg
+  exact C10_terminates_guarded G e r hr hu hwf hne pf _ R hG hpe hok text nid
+
+/-- non-vacuity: the property's own recursive example `set p to pattern {'a' maybe q 'b'} = q 'd'`,
+`find all p` is guarded (the call of `q` stands behind `'a'`), with all ranks 0 -/
+example : ∃ r, resolveBody [("p", .seq (.sub "q" (.seq (.atom (.str false false [97])) (.seq (.loop 0 1 false "" (.var "q"))
+      (.seq (.atom (.str false false [98])) .empty)))) (.seq (.atom (.str false false [100])) .empty), .skip)]
+      (.seq (.var "p") .empty) = some r ∧ guardedB r [] 1 = true := by
+  refine ⟨_, rfl, by decide⟩
+
+/-- an unguarded recursion is rejected by the criterion: `{maybe q 'a'} = q` -/
+example : ∃ r, resolveBody [] (.seq (.sub "q" (.seq (.loop 0 1 false "" (.var "q")) (.seq (.atom (.str false false [97])) .empty))) .empty)
+      = some r ∧ ∀ R, guardedB r [] R = false := by
+  refine ⟨_, rfl, ?_⟩
+  intro R
+  simp [guardedB, predFreeB, okCalls, procsOf, rkOf, mc, Procs.find, seqOf]
+
 /-- non-vacuity: nested unbounded loops over a nullable body -/
 example : CallFree (.loop 0 (-1) false "" (.loop 0 (-1) false "" (.loop 0 1 false "" (.atom (.cls false .lineStart))))) ∧
     codeLen (.loop 0 (-1) false "" (.loop 0 (-1) false "" (.loop 0 1 false "" (.atom (.cls false .lineStart))))) ≠ 0 := by
@@ -41,5 +95,8 @@ example : CallFree (.loop 0 (-1) false "" (.loop 0 (-1) false "" (.loop 0 1 fals
 #print axioms C10_terminates_callfree
 #print axioms C10_spec_total
 #print axioms C10_fuel_monotone
+#print axioms C10_spec_total_guarded
+#print axioms C10_terminates_guarded
+#print axioms C10_terminates_guardedB
 
 end Vore
